@@ -58,6 +58,7 @@ var families = []struct{ re, name string }{
 	{`already declared|redeclared|cannot declare (init|main)|other declaration`, "redeclaration"},
 	{`field and method with the same name`, "field-method-collision"},
 	{`cannot use iota outside constant declaration`, "iota-outside-const"},
+	{`invalid map key type`, "invalid-map-key-type"},
 	{`invalid recursive type|invalid cycle|initialization cycle`, "cycle"},
 	{`cannot use _ as value|cannot refer to blank`, "blank-as-value"},
 	{`assignment mismatch|wrong argument count|not enough (arguments|return values)|too many (arguments|return values)`, "count-mismatch"},
@@ -310,7 +311,7 @@ func TestPackages(t *testing.T) {
 		}
 		r.Check(t, "pkg", d.c, v)
 	})
-	if !r.Thorough() || len(accepted) == 0 {
+	if !r.Thorough() || len(accepted) == 0 || os.Getenv("VK_NOBUILD") != "" { // VK_NOBUILD: development aid for discovery runs
 		return
 	}
 	// thorough: the accepted outputs must also build
